@@ -83,6 +83,35 @@ def checked_sub_match(i):
     if i.get("k") != "Match":
         return None
     sc = strip(i["scrut"])
+    if sc.get("k") == "Tup":
+        # match (x, a.checked_sub(b)) { (0, _) | (_, None) => return Err(..), (_, Some(d)) => d }
+        js = [j for j, e in enumerate(sc["elems"]) if strip(e).get("k") == "MethodCall" and strip(e)["method"] == "checked_sub" and len(strip(e)["args"]) == 1]
+        if len(js) != 1:
+            return None
+        j = js[0]
+        cs = strip(sc["elems"][j])
+        out, zero_of = None, []
+        for a in i["arms"]:
+            alts = a["pat"]["pats"] if a["pat"].get("k") == "Or" else [a["pat"]]
+            if diverges_err(a["body"]):
+                for p in alts:
+                    if p.get("k") != "Tuple" or len(p["pats"]) != len(sc["elems"]):
+                        return None
+                    for k2, q in enumerate(p["pats"]):
+                        if q.get("k") == "Lit" and q["e"].get("lit") == "int" and q["e"].get("v") == 0 and k2 != j:
+                            zero_of.append(sc["elems"][k2])
+                continue
+            if len(alts) == 1 and alts[0].get("k") == "Tuple" and len(alts[0]["pats"]) == len(sc["elems"]):
+                q = alts[0]["pats"][j]
+                body = L.strip_try(a["body"])
+                if (q.get("k") == "TupleStruct" and (q.get("path") or "").endswith("Some") and q["pats"][0].get("k") == "Bind" and body.get("k") == "Path" and body.get("id") == q["pats"][0]["id"]
+                        and all(r.get("k") == "Wild" for k2, r in enumerate(alts[0]["pats"]) if k2 != j) and not a.get("guard")):
+                    out = {"a": cs["recv"], "b": cs["args"][0], "guard": None, "zero_refused": zero_of}
+                    continue
+            return None
+        if out is not None:
+            out["zero_refused"] = zero_of
+        return out
     if not (sc.get("k") == "MethodCall" and sc["method"] == "checked_sub" and len(sc["args"]) == 1):
         return None
     out = None
@@ -148,6 +177,10 @@ def refusal_atoms(block):
             atoms.append(("lt", a or "?", b or "?", cs["a"], cs["b"]))
             if cs["guard"] is not None:
                 cond_atoms(cs["guard"], False)      # the Some arm is refused when its guard is false
+            for z in cs.get("zero_refused") or []:
+                nm = tir.place(z) or L.local_name(z)
+                if nm:
+                    atoms.append(("eq0", nm))
     return atoms
 
 
@@ -283,6 +316,30 @@ def skip_arm_ok(F, arm_body, branch):
     return False
 
 
+def same_version_rule(F, rep, rule="gate.same-version"):
+    """parse_start allocates the frame columns with the parsed start's own version and port occupancy: the version that gates every
+    later read_push/push_null (state.game.start.slippi.version) is the one the columns were created for"""
+    b = F.body("io::slippi::de::parse_start")
+    root = b["tir"]["value"]
+    wc = [n for n in tir.walk(root) if n.get("k") == "Call" and declared(n) == "frame::mutable::Frame::with_capacity"]
+    ok = False
+    detail = "no single Frame::with_capacity call"
+    if len(wc) == 1:
+        env = tir.LetEnv(root)
+        vplace = env.place(wc[0]["args"][1], peel=False) or ""
+        pl = env.resolve(wc[0]["args"][2])
+        ok = vplace.endswith("start.slippi.version") and pl.get("k") == "Call" and declared(pl) == "game::port_occupancy" and (tir.place(pl["args"][0]) or "") == vplace[:-len(".slippi.version")]
+        detail = "version argument is %s" % (vplace or tir.pretty(env.resolve(wc[0]["args"][1]))[:80])
+        # the same start value is stored in the game
+        lits = [x for x in tir.walk(root) if x.get("k") == "Struct" and (x.get("path") or "").endswith("PartialGame")]
+        for x in lits:
+            for f in x["fields"]:
+                if f["name"] == "start":
+                    sp_ = env.place(f["e"], peel=True) or ""
+                    ok = ok and sp_ == vplace[:-len(".slippi.version")]
+    rep.ob(rule, ok, "io::slippi::de::parse_start", "with_capacity", "the frame columns must be allocated for the parsed start's own version (the one every later read is gated on): %s" % detail)
+
+
 def zero_frames_rule(F, rep):
     b = F.body("io::slippi::de::parse_start")
     root = b["tir"]["value"]
@@ -327,6 +384,12 @@ def run(F, rep, tier):
     if blk is not None:
         advance_rule(F, rep, blk)
     zero_frames_rule(F, rep)
+    # the skip result (no frames, no Gecko codes, possibly no end) can itself be written and re-read as .slp: table rows are emitted
+    # sizes of events the writer can emit, declared length = emitted length (C17's emission clause, all presence combinations)
+    import emission
+    import model
+    M = model.Model(F, rep, want=("read_push", "write", "size"))
+    emission.rule_emission(F, rep, M)
     n = peppifmt.optionality_rule(F, rep, only=("frames.arrow",))
     rep.floor("conditional writer entries checked", n, 1)
     rep.control("linear normaliser distinguishes skip from skip + 1", not linear.eq({"skip": 1, "": 1}, {"skip": 1, "": 0}))
